@@ -74,11 +74,47 @@ func homogeneousArgs(args TranslateArgs) TranslateArgs {
 	return out
 }
 
-func (m *Message) UnmarshalNBT(tagType byte, r nbt.DecoderReader) error {
+// maxComponentDepth bounds how deep components may nest (through "extra" and "with"). Every level is decoded
+// by a new call of UnmarshalNBT with a decoder of its own, so stack and memory grow with a nesting the peer
+// chooses: a 2 MiB packet could otherwise hold about 150000 levels. Vanilla reads NBT at most 512 levels
+// deep, and a component level costs two of them.
+const maxComponentDepth = 256
+
+// nestedReader is the reader handed to the decoder of one component. It carries the nesting depth to the
+// UnmarshalNBT calls of the components inside (the nbt decoder passes its reader on to them).
+type nestedReader struct {
+	r     io.Reader
+	depth int
+}
+
+func (n *nestedReader) Read(p []byte) (int, error) { return n.r.Read(p) }
+
+func (n *nestedReader) ReadByte() (byte, error) {
+	var b [1]byte
+	_, err := io.ReadFull(n.r, b[:])
+	return b[0], err
+}
+
+// nested returns the decoder for a value of the given tag type read from r, one level below r's own depth.
+func nested(tagType byte, r nbt.DecoderReader, step int) (*nbt.Decoder, error) {
+	depth := step
+	if outer, ok := r.(*nestedReader); ok {
+		depth += outer.depth
+	}
+	if depth > maxComponentDepth {
+		return nil, errors.New("chat: text components nested too deeply")
+	}
 	// Re-combine the tagType into the reader, and create a nbt decoder
-	tagReader := bytes.NewReader([]byte{tagType})
-	decoder := nbt.NewDecoder(io.MultiReader(tagReader, r))
+	decoder := nbt.NewDecoder(&nestedReader{r: io.MultiReader(bytes.NewReader([]byte{tagType}), r), depth: depth})
 	decoder.NetworkFormat(true) // TagType directlly followed the body
+	return decoder, nil
+}
+
+func (m *Message) UnmarshalNBT(tagType byte, r nbt.DecoderReader) error {
+	decoder, err := nested(tagType, r, 1)
+	if err != nil {
+		return err
+	}
 
 	switch tagType {
 	case nbt.TagString:
@@ -96,9 +132,10 @@ func (m *Message) UnmarshalNBT(tagType byte, r nbt.DecoderReader) error {
 }
 
 func (t *TranslateArgs) UnmarshalNBT(tagType byte, r nbt.DecoderReader) error {
-	tagReader := bytes.NewReader([]byte{tagType})
-	decoder := nbt.NewDecoder(io.MultiReader(tagReader, r))
-	decoder.NetworkFormat(true) // TagType directlly followed the body
+	decoder, err := nested(tagType, r, 0)
+	if err != nil {
+		return err
+	}
 
 	switch tagType {
 	case nbt.TagList:
